@@ -89,6 +89,9 @@ var table = map[string]spec{
 	"balance.burn/3": {kind: kAlphabet, args: func(p *prep) []any { return []any{p.u0.ScriptHash(), int64(5), []byte{1}} }},
 	"balance.lock/5": {kind: kAlphabet, args: func(p *prep) []any {
 		return []any{[]byte{1}, p.u0.ScriptHash(), util.Uint160{0xaa, 1}, int64(5), int64(9)}
+	}, unauth: func(p *prep) [][]any {
+		// onto the lock account that exists, and nothing at all
+		return [][]any{{[]byte{1}, p.u0.ScriptHash(), util.Uint160{0xaa, 7}, int64(5), int64(9)}, {[]byte{1}, p.u0.ScriptHash(), util.Uint160{0xaa, 1}, int64(0), int64(9)}}
 	}},
 	"balance.mint/3":     {kind: kAlphabet, args: func(p *prep) []any { return []any{p.u1.ScriptHash(), int64(5), []byte{1}} }},
 	"balance.newEpoch/1": {kind: kAlphabet, args: func(p *prep) []any { return []any{int64(3)} }}, // releases the lock prepared with until = 3
@@ -110,9 +113,20 @@ var table = map[string]spec{
 	"container.delete/3":                    {kind: kAlphabet, args: func(p *prep) []any { return []any{p.cid, sigb(2), []byte{}} }},
 	"container.newEpoch/1":                  {kind: kAlphabet, noEffect: true, args: func(p *prep) []any { return []any{int64(3)} }},
 	"container.onNEP11Payment/4":            {kind: kNone, noEffect: true, args: func(p *prep) []any { return []any{p.u0.ScriptHash(), int64(1), []byte("x"), nil} }},
-	"container.put/4":                       {kind: kAlphabet, args: func(p *prep) []any { return []any{p.blobNew, sigb(3), p.u0k.PublicKey().Bytes(), []byte{}} }},
-	"container.put/5":                       {kind: kAlphabet, args: func(p *prep) []any { return []any{p.blobNew, sigb(3), p.u0k.PublicKey().Bytes(), []byte{}, true} }},
-	"container.putNamed/6":                  {kind: kAlphabet, args: func(p *prep) []any { return []any{p.blobNew, sigb(3), p.u0k.PublicKey().Bytes(), []byte{}, "nice", ""} }},
+	// further argument lists: containers that are registered already, with and without meta-on-chain, under every
+	// overload (seeded change C03-11: a "nothing to do" return ahead of the witness check keeps what the overload wrote
+	// in advance)
+	"container.put/4": {kind: kAlphabet, args: func(p *prep) []any { return []any{p.blobNew, sigb(3), p.u0k.PublicKey().Bytes(), []byte{}} }, unauth: func(p *prep) [][]any {
+		return [][]any{{p.blobPlain, sigb(1), p.u0k.PublicKey().Bytes(), []byte{}}, {p.blobOld, sigb(1), p.u0k.PublicKey().Bytes(), []byte{}}}
+	}},
+	"container.put/5": {kind: kAlphabet, args: func(p *prep) []any { return []any{p.blobNew, sigb(3), p.u0k.PublicKey().Bytes(), []byte{}, true} }, unauth: func(p *prep) [][]any {
+		return [][]any{{p.blobPlain, sigb(1), p.u0k.PublicKey().Bytes(), []byte{}, true}, {p.blobPlain, sigb(1), p.u0k.PublicKey().Bytes(), []byte{}, false},
+			{p.blobOld, sigb(1), p.u0k.PublicKey().Bytes(), []byte{}, true}, {p.blobOld, sigb(1), p.u0k.PublicKey().Bytes(), []byte{}, false}, {p.blobNew, sigb(3), p.u0k.PublicKey().Bytes(), []byte{}, false}}
+	}},
+	"container.putNamed/6": {kind: kAlphabet, args: func(p *prep) []any { return []any{p.blobNew, sigb(3), p.u0k.PublicKey().Bytes(), []byte{}, "nice", ""} }, unauth: func(p *prep) [][]any {
+		return [][]any{{p.blobPlain, sigb(1), p.u0k.PublicKey().Bytes(), []byte{}, "", ""}, {p.blobPlain, sigb(1), p.u0k.PublicKey().Bytes(), []byte{}, "nice", ""},
+			{p.blobOld, sigb(1), p.u0k.PublicKey().Bytes(), []byte{}, "", ""}, {p.blobNew, sigb(3), p.u0k.PublicKey().Bytes(), []byte{}, "", ""}}
+	}},
 	"container.putContainerSize/4": {kind: kKey, key: func(p *prep) *keys.PrivateKey { return p.node0 }, args: func(p *prep) []any {
 		return []any{p.epoch, p.cid, int64(77), p.node0.PublicKey().Bytes()}
 	}},
@@ -171,7 +185,10 @@ var table = map[string]spec{
 	"netmap.addPeer/1": {kind: kKeyAlphabet, key: func(p *prep) *keys.PrivateKey { return p.node1 }, args: func(p *prep) []any {
 		return []any{nodeBlob(p.node1.PublicKey().Bytes(), 2)}
 	}},
-	"netmap.addPeerIR/1":      {kind: kAlphabet, args: func(p *prep) []any { return []any{nodeBlob(p.node1.PublicKey().Bytes(), 2)} }},
+	"netmap.addPeerIR/1": {kind: kAlphabet, args: func(p *prep) []any { return []any{nodeBlob(p.node1.PublicKey().Bytes(), 2)} }, unauth: func(p *prep) [][]any {
+		// the candidate that is there already, byte for byte
+		return [][]any{{nodeBlob(p.node0.PublicKey().Bytes(), 1)}}
+	}},
 	"netmap.deleteNode/1":     {kind: kAlphabet, args: func(p *prep) []any { return []any{p.node0.PublicKey().Bytes()} }},
 	"netmap.lastEpochBlock/0": {kind: kNone, noEffect: true, args: func(p *prep) []any { return nil }},
 	"netmap.newEpoch/1":       {kind: kAlphabet, args: func(p *prep) []any { return []any{p.epoch + 1} }},
